@@ -66,6 +66,25 @@ Proof.
 Qed.
 Print Assumptions C04_amount_rounded_down.
 
+(* no panic outcome is left in Keeper.Slash, and an operator without (positive) value gets an error and no change *)
+Theorem C04_never_panics : forall s e c, snd (step s e c) <> RPanic.
+Proof.
+  intros s e c. destruct c as [q|op ev pw f inf|fd ev pw f inf]; simpl.
+  - apply slash_never_panics.
+  - destruct (v_dog_avs e) as [avs|]; [|discriminate].
+    pose proof (slash_never_panics s e (reason_prm avs op ev pw f inf)) as K.
+    destruct (slash s e (reason_prm avs op ev pw f inf)) as [s' r]. simpl in K. destruct r; try discriminate. contradiction.
+  - destruct fd as [op|]; [|discriminate]. destruct (v_dog_avs e) as [avs|]; [|discriminate].
+    pose proof (slash_never_panics s e (reason_prm avs op ev pw f inf)) as K.
+    destruct (slash s e (reason_prm avs op ev pw f inf)) as [s' r]. simpl in K. destruct r; try discriminate. contradiction.
+Qed.
+Print Assumptions C04_never_panics.
+
+Theorem C04_zero_value_is_an_error : forall s e q, priced (v_assets e) (q_op q) (s_pools s) = true ->
+  value_of (v_assets e) (q_op q) (s_pools s) <= 0 -> fst (slash s e q) = s /\ snd (slash s e q) = RErr.
+Proof. exact slash_zero_value. Qed.
+Print Assumptions C04_zero_value_is_an_error.
+
 Theorem C04_failed_call_changes_nothing : forall s e q, snd (slash s e q) <> ROk -> fst (slash s e q) = s.
 Proof. exact slash_not_ok. Qed.
 Print Assumptions C04_failed_call_changes_nothing.
@@ -122,7 +141,12 @@ Example C04_same_block_undelegation_regression :
   step_ok ex_state (ex_env 10) (ex_call 10) s' ROk = true.
 Proof. vm_compute. repeat split; reflexivity. Qed.
 
-(* observation for C11: operator value zero -> LegacyDec.Quo divides by zero *)
-Example C04_zero_value_panics :
-  snd (step (mkSt [mkPool 0 0 0 0 0 0] [] [] [] []) (ex_env 12) (ex_call 10)) = RPanic.
-Proof. vm_compute. reflexivity. Qed.
+(* regression for the repaired division by zero (SlashAssets now returns ErrValueIsNilOrZero when the operator's staking +
+   unbonding value is not positive): the call errs and the state is identical, through every entry point *)
+Example C04_zero_value_errs :
+  let s0 := mkSt [mkPool 0 0 0 0 0 0] [mkRec 1 0 11 7 0 5 0 3] [] [] [] in
+  step s0 (ex_env 12) (ex_call 10) = (s0, RErr) /\
+  step s0 (ex_env 12) (COpReason 0 10 100 (P / 2) 1) = (s0, RZero) /\
+  step_ok s0 (ex_env 12) (ex_call 10) s0 RErr = true /\
+  step_ok s0 (ex_env 12) (ex_call 10) s0 RPanic = false.
+Proof. vm_compute. repeat split; reflexivity. Qed.
